@@ -7,6 +7,8 @@
 -/
 import Jqawk.Lemmas.Invariant
 import Jqawk.Model.Driver
+import Jqawk.Lemmas.ParserScope
+import Jqawk.Lemmas.ParserWF
 
 namespace Jqawk.C11
 open Jqawk
@@ -77,5 +79,143 @@ example : (match evalStmt Program.empty 10
       (newEvaluator Program.empty Heap.empty [] 0) with
     | .err (.runtime 2 _) s' => s'.faults == 1 && s'.faultOut == s'.out.length
     | _ => false) = true := by decide +kernel
+
+/-! ### static rejections: what a program that parses cannot contain -/
+
+/-- **`return` outside a function is rejected**: in a program that parses (any rule table, any
+    text) no `return` can escape from a rule body or a rule pattern — every `return` sits inside
+    a function body.  (`canS .ret` / `canE .ret`, Model/Scope.lean, over-approximate "a `return`
+    statement occurs outside function-call boundaries"; there are none in a rule.) -/
+theorem return_outside_function_rejected (tbl : RuleTable) (src : Bytes) (p : Program)
+    (h : parseProgramSrc tbl src = .ok p) :
+    ∀ r ∈ p.rules, canS .ret r.body = false ∧ ∀ e, r.pattern = some e → canE .ret e = false := by
+  intro r hr
+  exact (wellScoped_of_B p (parseProgramSrc_wellScopedB tbl src p h)).2 r hr .ret rfl
+
+/-- **`break` / `continue` outside a loop are rejected**: in a program that parses, no `break`
+    or `continue` can escape from a rule body, a rule pattern or a function body — each one sits
+    inside the body of a `while` / `for` / `for-in` of the same rule or function. -/
+theorem break_outside_loop_rejected (tbl : RuleTable) (src : Bytes) (p : Program)
+    (h : parseProgramSrc tbl src = .ok p) :
+    (∀ r ∈ p.rules, (canS .brk r.body = false ∧ canS .cont r.body = false) ∧
+      ∀ e, r.pattern = some e → canE .brk e = false ∧ canE .cont e = false) ∧
+    (∀ f ∈ p.functions, canS .brk f.body = false ∧ canS .cont f.body = false) := by
+  have hws := wellScoped_of_B p (parseProgramSrc_wellScopedB tbl src p h)
+  refine ⟨fun r hr => ⟨⟨(hws.2 r hr .brk rfl).1, (hws.2 r hr .cont rfl).1⟩, fun e he =>
+    ⟨(hws.2 r hr .brk rfl).2 e he, (hws.2 r hr .cont rfl).2 e he⟩⟩, fun f hf => ?_⟩
+  have := hws.1 f hf
+  simpa using this
+
+/-- non-vacuity: legal uses parse … -/
+example : (match parseProgramSrc expectedRuleTable
+      b!"function f(x) { for (i in x) { if (i) continue; break } return 1 } { while (1) break }" with
+    | .ok p => p.functions.length == 1 && p.rules.length == 1 | _ => false) = true := by
+  decide +kernel
+
+/-- … and the illegal ones are syntax errors at the offending keyword: `return` in a rule,
+    `break` in a rule, `continue` in a function outside a loop (a `break` in a match arm inside a
+    loop body is legal), `return` in a match arm of a rule pattern -/
+example : (match parseProgramSrc expectedRuleTable b!"{ print 1; return 2 }" with
+    | .syntaxErr e => e.pos == 11 | _ => false) = true := by decide +kernel
+example : (match parseProgramSrc expectedRuleTable b!"{ if (1) break }" with
+    | .syntaxErr e => e.pos == 9 | _ => false) = true := by decide +kernel
+example : (match parseProgramSrc expectedRuleTable b!"function f() { continue }" with
+    | .syntaxErr e => e.pos == 15 | _ => false) = true := by decide +kernel
+example : (match parseProgramSrc expectedRuleTable
+      b!"{ while (1) { x = match (1) { 1 => { break } } } }" with
+    | .ok _ => true | _ => false) = true := by decide +kernel
+example : (match parseProgramSrc expectedRuleTable b!"match (1) { 1 => { return } } { }" with
+    | .syntaxErr e => e.pos == 19 | _ => false) = true := by decide +kernel
+
+/-- the checks themselves (src/parser.go `statement()`): with the `inFunction` flag clear, a
+    `return` token makes `statement` fail at that token, whatever follows -/
+theorem return_outside_function_fails (tbl : RuleTable) (n : Nat) (ps : PS)
+    (h1 : ps.cur.tag = .return_) (h2 : ps.inFn = false) :
+    Parser.statement tbl (n + 1) ps = .fail ⟨ps.cur.pos, "can only return inside a function"⟩ :=
+  statement_return_outside tbl n ps h1 h2
+
+/-- … and with the `inLoop` flag clear, so do `break` and `continue` -/
+theorem break_outside_loop_fails (tbl : RuleTable) (n : Nat) (ps : PS) (h2 : ps.inLoop = false) :
+    (ps.cur.tag = .break_ →
+      Parser.statement tbl (n + 1) ps = .fail ⟨ps.cur.pos, "can only break inside a loop"⟩) ∧
+    (ps.cur.tag = .continue_ →
+      Parser.statement tbl (n + 1) ps = .fail ⟨ps.cur.pos, "can only continue inside a loop"⟩) :=
+  ⟨fun h1 => statement_break_outside tbl n ps h1 h2,
+   fun h1 => statement_continue_outside tbl n ps h1 h2⟩
+
+example : (⟨⟨.return_, 7, []⟩, Token.zero, false, false, false⟩ : PS).cur.tag = .return_ ∧
+    (⟨⟨.return_, 7, []⟩, Token.zero, false, false, false⟩ : PS).inFn = false := ⟨rfl, rfl⟩
+
+/-! ### assignment targets -/
+
+/-- what `assignable` accepts: a variable, a member expression or an index expression -/
+theorem assignable_iff (e : Expr) : Parser.assignable e = true ↔
+    (∃ t, e = .ident t) ∨ (∃ l r op, e = .binary l r op ∧ (op.tag = .dot ∨ op.tag = .lsquare)) := by
+  cases e with
+  | binary l r op =>
+    simp only [Parser.assignable, Bool.or_eq_true, beq_iff_eq, reduceCtorEq, exists_const, false_or]
+    exact ⟨fun h => ⟨l, r, op, rfl, h⟩, fun ⟨_, _, _, he, h⟩ => by cases he; exact h⟩
+  | _ => simp [Parser.assignable]
+
+/-- **Assignment to a non-assignable target is a syntax error**: no node anywhere in a program
+    that parses (with the rule table of src/parser.go) is an assignment whose left side is not
+    a variable / member / index expression; no compound-assignment operator survives parsing
+    (`a op= b` is rewritten to `a = a op b`, so the same check covers them); and no `++` / `--`
+    node, prefix or postfix, has a non-assignable operand. -/
+theorem assignment_target_checked (src : Bytes) (p : Program)
+    (h : parseProgramSrc expectedRuleTable src = .ok p) :
+    ∀ e ∈ p.subExprs,
+      (∀ l r op, e = .binary l r op →
+        (op.tag = .equal → Parser.assignable l = true) ∧ Parser.isCompound op.tag = false) ∧
+      (∀ x op post, e = .unary x op post →
+        op.tag = .plusPlus ∨ op.tag = .minusMinus → Parser.assignable x = true) := by
+  intro e he
+  have hok := Program.nodeOK_of_wfB p (parse_wf src p h) e he
+  constructor
+  · rintro l r op rfl
+    simp only [Expr.nodeOK, Bool.and_eq_true, Bool.or_eq_true, bne_iff_ne, ne_eq,
+      Bool.not_eq_true'] at hok
+    refine ⟨fun heq => ?_, hok.1.1.2⟩
+    rcases hok.1.1.1 with h1 | h1
+    · exact absurd heq h1
+    · exact h1
+  · rintro x op post rfl hop
+    simp only [Expr.nodeOK, Bool.or_eq_true, Bool.not_eq_true'] at hok
+    rcases hok with h1 | h1
+    · rcases hop with hop | hop <;> simp [hop] at h1
+    · exact h1
+
+/-- non-vacuity: assignments of all kinds to all kinds of legal targets parse, and the tree
+    contains the rewritten nodes -/
+example : (match parseProgramSrc expectedRuleTable b!"{ a = 1; a.b += 2; a[0]++; --a }" with
+    | .ok p => (p.subExprs.filter (fun e => match e with
+        | .binary _ _ op => op.tag == .equal | .unary _ _ _ => true | _ => false)).length == 4
+    | _ => false) = true := by decide +kernel
+
+/-- … and each illegal target is a syntax error -/
+example : (match parseProgramSrc expectedRuleTable b!"{ 1 = 2 }" with
+    | .syntaxErr _ => true | _ => false) = true := by decide +kernel
+example : (match parseProgramSrc expectedRuleTable b!"{ f() += 2 }" with
+    | .syntaxErr _ => true | _ => false) = true := by decide +kernel
+example : (match parseProgramSrc expectedRuleTable b!"{ (a + b)++ }" with
+    | .syntaxErr _ => true | _ => false) = true := by decide +kernel
+example : (match parseProgramSrc expectedRuleTable b!"{ --1 }" with
+    | .syntaxErr _ => true | _ => false) = true := by decide +kernel
+
+/-- the check itself (src/parser.go `assign()`): a non-assignable left side makes the infix
+    parser fail at the left side's token before consuming the operator -/
+theorem assignment_target_fails (tbl : RuleTable) (n : Nat) (left : Expr) (ps : PS)
+    (h : Parser.assignable left = false) :
+    Parser.infixFn tbl (n + 1) .assign left ps = .fail ⟨left.token.pos, "invalid assignment"⟩ :=
+  infixFn_assign_invalid tbl n left ps h
+
+example : Parser.assignable (.lit ⟨.num, 2, b!"1"⟩) = false := rfl
+
+/-- all node-shape facts at once (`Expr.nodeOK`, Model/WF.lean), for every node of a parsed
+    program: literal tokens in literal nodes, assignable targets, a type name right of `is`, a
+    field name right of `.` -/
+theorem parsed_nodes_ok (src : Bytes) (p : Program)
+    (h : parseProgramSrc expectedRuleTable src = .ok p) : ∀ e ∈ p.subExprs, e.nodeOK = true :=
+  Program.nodeOK_of_wfB p (parse_wf src p h)
 
 end Jqawk.C11
